@@ -44,7 +44,10 @@ CHECK = {
                'reproduction). Wall-clock budget hits are recorded as inconclusive. While findings are listed as known their triggers are removed from '
                'the generated mixes (tip reads, the three bulk lookups, emptying the block cache, getBlocksFromId on the moving tip, the remove-path half of the '
                'published-means-committed oracle). The ordering oracles see a too-early publication only if a reader runs inside the window; measured hit rate '
-               'for AddBlock publishing before writing: 30-250 violating observations per case, every case.',
+               'for AddBlock publishing before writing: 30-250 violating observations per case, every case. The linearizability oracle of (g) judges each key on its own '
+               '(a Range/Iterate counts as one read per key it returned or proved absent, so a scan that is not one atomic multi-key snapshot is not detected), does not use '
+               'Snapshot/RestoreSnapshot (they are exercised by (d)), and sees a lost staged write only if some later read, the reads at quiescence or the committed database show it '
+               '(they always do: every key is read at the end of every round).',
  'technique': 'property-based stress testing (rapid-drawn concurrent workloads) under the Go race detector with invariant / multiset / model / publication-order / linearizability oracles',
  'assumptions': ['fake deterministic application (harness/node)', 'loopback networking for the started p2p connection',
                  'race reports without a frame of github.com/LiskHQ/lisk-engine/pkg/ are noted, not judged',
